@@ -17,7 +17,12 @@ def gen_geom(rng, small=True):
         if rng.random() < 0.25:
             bl = (5, rng.choice([5, 6]), rng.choice([5, 6, 7]), bl[3])       # one hash per level-1 block: several master hashes
         db = (rng.choice([2, 4, 7]), rng.choice([7, 8, 9]))
-        nblocks = rng.choice([1, 2, 3, 5, 8, 17, 40])
+        wide = rng.random() < 0.35
+        if wide:
+            # DPFS level 1 with a block size of its own (retail saves use equal sizes, where a mix-up of the two is invisible), level-2
+            # blocks of one u32 and enough level-3 blocks that the level-2 bitmap spans several of them
+            db = (rng.choice([3, 4, 5, 7]), 2, 7)
+        nblocks = rng.choice([1, 2, 3, 5, 8, 17, 40]) if not wide else rng.choice([17, 40])
         tail = rng.choice([0, 1, 7, (1 << bl[3]) - 1])
         size = max(1, nblocks * (1 << bl[3]) - tail)
         return dict(bl=bl, db=db, size=size, ext=rng.random() < 0.35, rb=rng.random() < 0.8)
